@@ -56,3 +56,12 @@ Definition c07_find_doc (c : tree * search * option (list cont)) : nat :=
             | _, _ => false
             end in
   if ok then 1 else if negb (desc_clean t0 [] s MTop (RPath [])) then 2 else 0.
+
+(* every constraint of a list holds on a tree in the documented meaning (used for trees handed out by the public parse API, C04).
+   1 holds, 0 violated, 2 violated only via the recorded `..` case, 4 oracle entry missing *)
+Definition c07_all_hold (c : tree * list constr * oracle) : nat :=
+  let '(t0, cs, orc) := c in
+  let vs := map (verdict_doc t0 orc) cs in
+  if existsb is_missing vs then 4
+  else if forallb is_true vs then 1
+  else if negb (forallb (fun k => all_clean t0 k [] []) cs) then 2 else 0.
